@@ -327,7 +327,9 @@ DecUnionObj(sc, n, m, strict, perms, devs) ==
               ELSE LET r == DecFields(sc, ut.n, m, strict, perms, devs, TRUE, ut.n)
                    IN  IF r.k = "ok" THEN Ok(VUnion(n, tn, r.v)) ELSE r
          ELSE \* primitive, list, map, union, enumerated-subtype struct: nested
-              IF tn \in DOMAIN m
+              IF tn \in DOMAIN m /\ nul /\ m[tn].k = "jnull"
+              THEN Unspec      \* the documented null form of a nullable member is the tag alone
+              ELSE IF tn \in DOMAIN m
               THEN LET r == Dec(sc, tg.t, m[tn], strict, perms, devs)
                    IN  IF r.k = "err" THEN Err
                        ELSE IF extra # {} THEN (IF strict THEN Err ELSE Unspec)
